@@ -5,6 +5,17 @@ In-process runs set CTL (scheduler, die spec); real spawned workers see CTL = No
 import os
 
 CTL = None
+DEATHS = 0
+
+
+class SilentInt(int):
+    """An item that cannot be rendered as text (helpers._fill_queue explicitly allows for items whose
+    str() raises: it only needs the text for a log line)."""
+
+    def __str__(self):
+        raise ValueError("this item has no text form")
+
+    __repr__ = __str__
 
 
 class CallbackError(Exception):
@@ -47,7 +58,11 @@ def cb(item, *sketches, logdir=None, die_item=None, tag=None, expect=None, table
                 sched.yield_point(lambda: all(t.finished or t.killed for t in others))
                 for _ in range(6):
                     sched.yield_point()
-            raise fakemp.WorkerDeath("worker %s dies on its item #%d" % (w, counts[w]))
+            global DEATHS
+            DEATHS += 1
+            death = fakemp.WorkerDeath("worker %s dies on its item #%d" % (w, counts[w]))
+            death.code = (1, -9, 3, -15)[DEATHS % 4]          # os._exit(k) and deaths by a signal (OOM killer: -9)
+            raise death
     else:
         if logdir:
             with open(os.path.join(logdir, "deq.%d" % os.getpid()), "a") as f:
